@@ -95,6 +95,33 @@ run.mismatches = []
 ms = run.validate_lines(ctrace, "corrupted-cache", "XCacheBatch", dict(cb, Mode="validate"), props.describe_cache)
 say("3b corrupted 'loaded' flag rejected at that run", len(ms) == 1 and ms[0]["line"] == i + 1, ms[0]["fail"] if ms else "")
 
+# 3c ----------------------------------------------------------------- trace validation against the implementation-shaped model
+tr = run.drive("vm", 400, extra=["-nodes", "12"])
+lines = open(tr).read().splitlines()
+run.drift = []
+ms = run.validate_batch(tr, "clean-vm-trace", consts={"Deviations": set()}, module="XVMBatch", drift=True, env_extra={"JAVA_TOOL_OPTIONS": "-Xss256m"})
+say("3c clean movement trace is a behaviour of XQueryVM2", len(ms) == 0)
+hit = []
+for i, l in enumerate(lines):
+    ev = json.loads(l)
+    if len(hit) == 0 and len(ev["ops"]) >= 9:
+        ev["ops"][4] += 1                     # one cursor movement starts from another node
+    elif len(hit) == 1 and len(ev["ids"]) >= 2 and ev["ids"][0] != ev["ids"][1]:
+        ev["ids"][0], ev["ids"][1] = ev["ids"][1], ev["ids"][0]   # two nodes delivered in the other order
+    elif len(hit) == 2 and len(ev["ops"]) >= 9:
+        ev["ops"] = ev["ops"][:-3]            # the last movement was not made
+    else:
+        continue
+    hit.append(i + 1)
+    lines[i] = json.dumps(ev)
+    if len(hit) == 3:
+        break
+open(tr, "w").write("\n".join(lines) + "\n")
+run.drift = []
+ms = run.validate_batch(tr, "corrupted-vm-trace", consts={"Deviations": set()}, module="XVMBatch", drift=True, env_extra={"JAVA_TOOL_OPTIONS": "-Xss256m"})
+say("3d three corrupted movement records rejected at exactly those lines", sorted(m["line"] for m in ms) == hit,
+    "%s %s" % (hit, [m["fail"] for m in ms]))
+
 # 4 ------------------------------------------------------------------
 scratch = "/tmp/mut/nohooks"
 shutil.rmtree(scratch, ignore_errors=True)
